@@ -37,7 +37,7 @@ ScanFails(e) ==
                    /\ q >= St(t)
                    /\ e.iv[t].bucket = RankOf(Canon(Sub(e.seq, q + 1, p)))
                    /\ \A q2 \in St(t)..(St(t) + Ln(t) - p) : Sc(q) <= Sc(q2)
-      S9 == full => \A t \in 1..NI : e.iv[t].bucket = RankOf(Canon(e.iv[t].min))
+      S9 == (full /\ p <= 8) => \A t \in 1..NI : e.iv[t].bucket = RankOf(Canon(e.iv[t].min))
       shape == S1 /\ S3
   IN {c \in {"S1", "S2", "S3", "S4", "S5", "S6", "S7", "S8", "S9"} :
         ~(CASE c = "S1" -> S1 [] c = "S2" -> (S1 => S2) [] c = "S3" -> S3 [] c = "S4" -> S4
